@@ -24,7 +24,9 @@ def run(prop, tier):
     sd = seed()
     # 1. exhaustive: all interleavings of create / drop / three-step set_backend with <= 3 objects
     cfg = tlc.make_cfg(EXH, invariants=INV, spec="HSpec", properties=["DefaultUntouchedUnlessAsked"], view="NoHist")
-    exh = tlc.run("MC_Backend", cfg, workers=16, timeout=3600)
+    exh = tlc.run("MC_Backend", cfg, workers=16, timeout=3600, coverage=(tier == "thorough"))
+    if tier == "thorough":
+        tlc.require_actions(exh, ["HCreate", "HDrop", "HSwap", "HFire", "HSetup"], "MC_Backend")
     if not exh.ok:
         raise Machinery("Backend.tla: an invariant of the specification fails:\n" + exh.tail[-3000:])
     # 2. simulated behaviours for replay
